@@ -113,4 +113,310 @@ theorem log2_split (v1 : Nat) (h : v1 ≠ 0) : 2 ^ Nat.log2 v1 + v1 % 2 ^ Nat.lo
 theorem log2_lt_of_lt (v1 : Nat) (h : v1 ≠ 0) (hb : v1 < 2 ^ 15) : Nat.log2 v1 < 15 :=
   (Nat.log2_lt h).2 hb
 
+/-- the value of a (magnitude, sign) pair -/
+def sval (neg : Bool) (a : Nat) : Int := if neg then -((a : Nat) : Int) else ((a : Nat) : Int)
+
+/-- **DC differences**: the decisions of Figure F.4 decode to the difference and to the same new
+conditioning context, using exactly the bins the encoder used -/
+theorem decDC_dcDiff (tbl ctx L U : Nat) (v : Int) (hv : v.natAbs ≤ 32768) (rest : List Dn) (f : Bool) :
+    decDC lsrc ((dcDiff tbl ctx L U v).1 ++ rest, f) tbl ctx L U = some (v, (dcDiff tbl ctx L U v).2, (rest, f)) := by
+  unfold dcDiff decDC
+  by_cases h0 : v = 0
+  · subst h0; simp
+  · simp only [h0, if_false]
+    generalize hsg : (if v < 0 then 1 else 0 : Nat) = sg
+    have hsg01 : sg = 0 ∨ sg = 1 := by split at hsg <;> omega
+    simp only [List.cons_append, lsrc_next, Nat.one_ne_zero, if_false]
+    unfold dcMag
+    by_cases h1 : v.natAbs - 1 = 0
+    · simp only [h1, if_true, List.cons_append, List.nil_append, lsrc_next, ne_eq, not_true_eq_false, if_false]
+      have hm : magBits lsrc 20 0 0 (dcBase tbl + ctx + 2 + sg + 14) (rest, f) = (0, (rest, f)) := by simp [magBits]
+      simp only [hm]
+      congr 2
+      rcases hsg01 with rfl | rfl
+      · simp only [Nat.zero_ne_one, if_false]
+        split at hsg <;> omega
+      · simp only [if_true]
+        split at hsg <;> omega
+    · simp only [h1, if_false]
+      have hn := log2_lt_of_lt (v.natAbs - 1) h1 (by omega)
+      generalize hv1 : v.natAbs - 1 = v1 at *
+      generalize hnn : Nat.log2 v1 = n at *
+      have hlist : ((dcBase tbl + ctx + 2 + sg, 1) :: ((List.range n).map (fun i => (dcBase tbl + 20 + i, 1)) ++
+          ((dcBase tbl + 20 + n, 0) :: (List.range n).map (fun i => (dcBase tbl + 20 + n + 14, (v1 >>> (n - 1 - i)) % 2))))) ++ rest =
+          (dcBase tbl + ctx + 2 + sg, 1) :: ((List.range n).map (fun i => (dcBase tbl + 20 + i, 1)) ++
+          ((dcBase tbl + 20 + n, 0) :: ((List.range n).map (fun i => (dcBase tbl + 20 + n + 14, (v1 >>> (n - 1 - i)) % 2)) ++ rest))) := by
+        simp
+      rw [hlist]
+      simp only [lsrc_next, ne_eq, Nat.one_ne_zero, not_false_eq_true, if_true]
+      rw [magUnary_ones n 20 1 (dcBase tbl + 20) _ f (by omega) (by
+        have : 2 ^ n ≤ 2 ^ 14 := Nat.pow_le_pow_right (by omega) (by omega)
+        omega)]
+      simp only [Nat.one_mul]
+      have hb := magBits_bits v1 n 20 1 (dcBase tbl + 20 + n + 14) rest f (by omega)
+      rw [Nat.mul_one] at hb
+      rw [hb, ← hnn, log2_split v1 h1]
+      congr 2
+      rcases hsg01 with rfl | rfl
+      · simp only [Nat.zero_ne_one, if_false]
+        split at hsg <;> omega
+      · simp only [if_true]
+        split at hsg <;> omega
+
+/-- **a nonzero AC coefficient**: after the "not zero" decision, sign and magnitude decode exactly -/
+theorem decACval_acVal (tbl K k st : Nat) (neg : Bool) (av : Nat) (h1 : 1 ≤ av) (hv : av ≤ 32768) (rest : List Dn) (f : Bool) :
+    ∃ l', acVal tbl K k st neg av = (st + 1, 1) :: l' ∧
+      decACval lsrc (l' ++ rest, f) tbl k K st = some (sval neg av, (rest, f)) := by
+  unfold acVal
+  by_cases hz : av - 1 = 0
+  · refine ⟨[(fixedBin, if neg then 1 else 0), (st + 2, 0)], by simp [hz], ?_⟩
+    have hav : av = 1 := by omega
+    subst hav
+    unfold decACval
+    simp only [List.cons_append, List.nil_append, lsrc_next, ne_eq, not_true_eq_false, if_false]
+    have hm : magBits lsrc 20 0 0 (st + 2 + 14) (rest, f) = (0, (rest, f)) := by simp [magBits]
+    simp only [hm]
+    cases neg <;> simp [sval]
+  · simp only [hz, if_false]
+    have hn := log2_lt_of_lt (av - 1) hz (by omega)
+    generalize hv1 : av - 1 = v1 at *
+    have hav : av = v1 + 1 := by omega
+    generalize hnn : Nat.log2 v1 = n at *
+    by_cases hn0 : n = 0
+    · subst hn0
+      have hv1one : v1 = 1 := by
+        have := log2_split v1 hz
+        rw [hnn] at this
+        simp [Nat.mod_one] at this
+        omega
+      refine ⟨[(fixedBin, if neg then 1 else 0), (st + 2, 1), (st + 2, 0)], by simp, ?_⟩
+      unfold decACval
+      simp only [List.cons_append, List.nil_append, lsrc_next, ne_eq, Nat.one_ne_zero, not_false_eq_true, if_true, not_true_eq_false, if_false]
+      have hm : magBits lsrc 20 1 1 (st + 2 + 14) (rest, f) = (1, (rest, f)) := by simp [magBits]
+      simp only [hm]
+      rw [hav, hv1one]
+      cases neg <;> simp [sval]
+    · simp only [hn0, if_false]
+      obtain ⟨q, rfl⟩ : ∃ q, n = q + 1 := ⟨n - 1, by omega⟩
+      generalize hx : acBase tbl + (if k ≤ K then 189 else 217) = x
+      refine ⟨(fixedBin, if neg then 1 else 0) :: (st + 2, 1) :: (st + 2, 1) :: ((List.range q).map (fun i => (x + i, 1)) ++
+          ((x + q, 0) :: (List.range (q + 1)).map (fun i => (x + q + 14, (v1 >>> (q + 1 - 1 - i)) % 2)))), by simp, ?_⟩
+      unfold decACval
+      have hlist : ((fixedBin, if neg then 1 else 0) :: (st + 2, 1) :: (st + 2, 1) :: ((List.range q).map (fun i => (x + i, 1)) ++
+          ((x + q, 0) :: (List.range (q + 1)).map (fun i => (x + q + 14, (v1 >>> (q + 1 - 1 - i)) % 2))))) ++ rest =
+          (fixedBin, if neg then 1 else 0) :: (st + 2, 1) :: (st + 2, 1) :: ((List.range q).map (fun i => (x + i, 1)) ++
+          ((x + q, 0) :: ((List.range (q + 1)).map (fun i => (x + q + 14, (v1 >>> (q + 1 - 1 - i)) % 2)) ++ rest))) := by simp
+      rw [hlist]
+      simp only [lsrc_next, ne_eq, Nat.one_ne_zero, not_false_eq_true, if_true, hx]
+      rw [magUnary_ones q 20 2 x _ f (by omega) (by
+        have : 2 ^ q ≤ 2 ^ 13 := Nat.pow_le_pow_right (by omega) (by omega)
+        omega)]
+      simp only
+      have hb := magBits_bits v1 (q + 1) 20 1 (x + q + 14) rest f (by omega)
+      rw [Nat.mul_one] at hb
+      rw [show 2 * 2 ^ q = 2 ^ (q + 1) by rw [Nat.pow_succ]; omega, hb, ← hnn, log2_split v1 hz, hav]
+      cases neg <;> simp [sval]
+
+theorem sval_zero (neg : Bool) : sval neg 0 = 0 := by cases neg <;> simp [sval]
+
+theorem map_sval_all_zero : ∀ (l : List (Nat × Bool)), l.all (fun x => x.1 == 0) = true →
+    l.map (fun c => sval c.2 c.1) = List.replicate l.length 0 := by
+  intro l
+  induction l with
+  | nil => intro _; rfl
+  | cons c t ih =>
+    intro h
+    simp only [List.all_cons, Bool.and_eq_true, beq_iff_eq] at h
+    rw [List.map_cons, h.1, sval_zero, ih h.2, List.length_cons, List.replicate_succ]
+
+/-- the end-of-block decision 0 at a symbol start puts the decoder where it is inside a run -/
+theorem decF_eob0 (tbl K k rem : Nat) (Y : List Dn) (f : Bool) :
+    decF lsrc tbl K false k (rem + 1) ((acBin tbl k, 0) :: Y, f) = decF lsrc tbl K true k (rem + 1) (Y, f) := by
+  simp only [decF, Bool.false_eq_true, if_false, lsrc_next, Nat.zero_ne_one, if_true]
+
+/-- **the AC coefficients of a block or band (sequential mode and first pass)**: end-of-block
+decisions, zero runs, signs and magnitudes decode to exactly the coefficients -/
+theorem decF_acF (tbl K : Nat) : ∀ (l : List (Nat × Bool)) (started : Bool) (k : Nat) (rest : List Dn) (f : Bool),
+    (∀ c ∈ l, c.1 ≤ 32768) → (started = true → l.all (fun x => x.1 == 0) = false) →
+    decF lsrc tbl K started k l.length (acF tbl K started k l ++ rest, f) = some (l.map (fun c => sval c.2 c.1), (rest, f)) := by
+  intro l
+  induction l with
+  | nil => intro started k rest f _ _; simp [decF, acF]
+  | cons c t ih =>
+    intro started k rest f hb hs
+    have hbt : ∀ x ∈ t, x.1 ≤ 32768 := fun x hx => hb x (by simp [hx])
+    unfold acF
+    by_cases hz : (!started && (c :: t).all (fun x => x.1 == 0)) = true
+    · -- end of block
+      rw [if_pos hz]
+      simp only [Bool.and_eq_true, Bool.not_eq_true'] at hz
+      obtain ⟨hst, hall⟩ := hz
+      subst hst
+      simp only [List.length_cons, decF, List.cons_append, List.nil_append, Bool.false_eq_true, if_false, lsrc_next, if_true]
+      rw [map_sval_all_zero _ hall]; simp
+    · rw [if_neg hz]
+      have hnz : (c :: t).all (fun x => x.1 == 0) = false := by
+        cases hst : started with
+        | true => exact hs hst
+        | false =>
+          rw [hst] at hz
+          simp only [Bool.not_false, Bool.true_and] at hz
+          exact Bool.eq_false_iff.2 hz
+      -- after the end-of-block decision (made, with value 0, unless inside a run)
+      have hcore : ∀ (X : List Dn), decF lsrc tbl K started k (c :: t).length
+          (((if started = true then [] else [(acBin tbl k, 0)]) ++ X) ++ rest, f) = decF lsrc tbl K true k (t.length + 1) (X ++ rest, f) := by
+        intro X
+        cases started with
+        | true => simp only [if_true, List.nil_append, List.length_cons]
+        | false => simp only [Bool.false_eq_true, if_false, List.cons_append, List.nil_append, List.length_cons]; exact decF_eob0 tbl K k t.length _ f
+      rw [hcore]
+      simp only [decF, if_true, Nat.zero_ne_one, if_false]
+      by_cases hc0 : c.1 = 0
+      · -- a zero inside (or starting) a run
+        rw [if_pos hc0]
+        have ht : t.all (fun x => x.1 == 0) = false := by
+          simp only [List.all_cons, hc0, beq_self_eq_true, Bool.true_and] at hnz; exact hnz
+        have htne : t.length ≠ 0 := by
+          intro h0
+          have : t = [] := List.length_eq_zero_iff.1 h0
+          subst this; simp at ht
+        have hih := ih true (k + 1) rest f hbt (fun _ => ht)
+        simp only [List.cons_append, lsrc_next, Nat.zero_ne_one, if_false]
+        rw [if_neg htne, hih, List.map_cons, hc0, sval_zero]
+      · -- a coefficient
+        rw [if_neg hc0]
+        obtain ⟨l', hl', hdec⟩ := decACval_acVal tbl K k (acBin tbl k) c.2 c.1 (by omega) (hb c (by simp))
+          (acF tbl K false (k + 1) t ++ rest) f
+        have hih := ih false (k + 1) rest f hbt (fun h => by cases h)
+        rw [hl']
+        simp only [List.cons_append, List.append_assoc, lsrc_next, if_true]
+        rw [hdec]
+        simp only
+        rw [hih, List.map_cons]
+
+/-! ### refinement -/
+
+open LJT.ProgAC (prevOf newOf prevOf_ne prevOf_zero prevOf_one newOf_zero corr corr_prev)
+
+theorem prev_all_zero (p : Int) (hp : 0 < p) : ∀ (l : List (Nat × Bool)),
+    (l.map (prevOf p)).all (· == 0) = !(l.any (fun x => decide (x.1 ≥ 2))) := by
+  intro l
+  induction l with
+  | nil => rfl
+  | cons c t ih =>
+    simp only [List.map_cons, List.all_cons, List.any_cons, ih, Bool.not_or]
+    congr 1
+    by_cases h2 : 2 ≤ c.1
+    · have := prevOf_ne p hp c h2
+      simp [this, h2]
+    · have : prevOf p c = 0 := by unfold prevOf; rw [if_pos (by omega)]
+      simp [this, h2]
+
+theorem new_all_zero (p : Int) : ∀ (l : List (Nat × Bool)), l.all (fun x => x.1 == 0) = true →
+    l.map (newOf p) = l.map (prevOf p) := by
+  intro l
+  induction l with
+  | nil => intro _; rfl
+  | cons c t ih =>
+    intro h
+    simp only [List.all_cons, Bool.and_eq_true, beq_iff_eq] at h
+    rw [List.map_cons, List.map_cons, ih h.2, newOf_zero p c h.1, prevOf_zero p c h.1]
+
+/-- **AC refinement (Figure G.10)**: correction decisions for coefficients with history, zero
+runs, newly-nonzero coefficients with their signs and the conditional end-of-block decisions
+decode from the values of the previous level to exactly the values of this level -/
+theorem decR_acR (tbl : Nat) (p : Int) (hp : 0 < p) : ∀ (l : List (Nat × Bool)) (started : Bool) (k : Nat) (rest : List Dn) (f : Bool),
+    (started = true → l.all (fun x => x.1 == 0) = false) →
+    decR lsrc tbl p started k (l.map (prevOf p)) (acR tbl started k l ++ rest, f) = some (l.map (newOf p), (rest, f)) := by
+  intro l
+  induction l with
+  | nil => intro started k rest f _; simp [decR, acR]
+  | cons c t ih =>
+    intro started k rest f hs
+    unfold acR
+    by_cases hz : (!started && (c :: t).all (fun x => x.1 == 0)) = true
+    · -- end of block
+      rw [if_pos hz]
+      simp only [Bool.and_eq_true, Bool.not_eq_true'] at hz
+      obtain ⟨hst, hall⟩ := hz
+      subst hst
+      have hnone : (c :: t).any (fun x => decide (x.1 ≥ 2)) = false := by
+        rw [List.any_eq_false]
+        intro x hx
+        have := List.all_eq_true.1 hall x hx
+        simp only [beq_iff_eq] at this
+        simp [this]
+      have hpz := prev_all_zero p hp (c :: t)
+      rw [hnone] at hpz
+      rw [List.map_cons] at hpz ⊢
+      simp only [decR, List.cons_append, List.nil_append, Bool.not_false, Bool.true_and, hpz, if_true, lsrc_next]
+      rw [← List.map_cons, new_all_zero p _ hall]
+    · rw [if_neg hz]
+      have hnz : (c :: t).all (fun x => x.1 == 0) = false := by
+        cases hst : started with
+        | true => exact hs hst
+        | false =>
+          rw [hst] at hz
+          simp only [Bool.not_false, Bool.true_and] at hz
+          exact Bool.eq_false_iff.2 hz
+      -- the conditional end-of-block decision
+      have hcore : ∀ (X : List Dn), decR lsrc tbl p started k ((c :: t).map (prevOf p))
+          (((if (started || (c :: t).any (fun x => decide (x.1 ≥ 2))) = true then [] else [(acBin tbl k, 0)]) ++ X) ++ rest, f) =
+          decR lsrc tbl p true k ((c :: t).map (prevOf p)) (X ++ rest, f) := by
+        intro X
+        have hpz := prev_all_zero p hp (c :: t)
+        rw [List.map_cons] at hpz ⊢
+        cases started with
+        | true => simp only [Bool.true_or, if_true, List.nil_append]
+        | false =>
+          simp only [Bool.false_or]
+          cases hany : (c :: t).any (fun x => decide (x.1 ≥ 2)) with
+          | true =>
+            have hpz' : ((prevOf p c :: t.map (prevOf p)).all (· == 0)) = false := by rw [hpz, hany]; rfl
+            simp only [if_true, List.nil_append, decR, Bool.not_false, Bool.true_and, hpz', Bool.false_eq_true, if_false, Bool.not_true,
+              Bool.false_and]
+          | false =>
+            have hpz' : ((prevOf p c :: t.map (prevOf p)).all (· == 0)) = true := by rw [hpz, hany]; rfl
+            simp only [Bool.false_eq_true, if_false, List.cons_append, List.nil_append, decR, Bool.not_false, Bool.true_and, hpz', if_true,
+              lsrc_next, Nat.zero_ne_one, Bool.not_true, Bool.false_and]
+      rw [hcore]
+      rw [List.map_cons, List.map_cons]
+      simp only [decR, Bool.not_true, Bool.false_and, Bool.false_eq_true, if_false, Nat.zero_ne_one]
+      by_cases hc0 : c.1 = 0
+      · rw [if_pos hc0, prevOf_zero p c hc0]
+        have ht : t.all (fun x => x.1 == 0) = false := by
+          simp only [List.all_cons, hc0, beq_self_eq_true, Bool.true_and] at hnz; exact hnz
+        have htne : (t.map (prevOf p)).isEmpty = false := by
+          cases t with
+          | nil => simp at ht
+          | cons _ _ => rfl
+        simp only [ne_eq, not_true_eq_false, if_false, List.cons_append, lsrc_next, Nat.zero_ne_one, htne, Bool.false_eq_true]
+        rw [ih true (k + 1) rest f (fun _ => ht), newOf_zero p c hc0]
+      · rw [if_neg hc0]
+        by_cases h2 : c.1 ≥ 2
+        · rw [if_pos h2, if_pos (prevOf_ne p hp c h2)]
+          simp only [List.cons_append, lsrc_next]
+          rw [ih false (k + 1) rest f (fun h => by cases h)]
+          simp only
+          congr 2
+          have hc := corr_prev p hp c h2
+          unfold corr at hc
+          rw [← hc]
+          rcases Nat.mod_two_eq_zero_or_one c.1 with hm | hm
+          · simp [hm]
+          · simp only [hm, decide_true, if_true]
+            by_cases hneg : prevOf p c < 0
+            · rw [if_pos hneg, if_neg (by omega)]
+            · rw [if_neg hneg, if_pos (by omega)]
+        · have h1 : c.1 = 1 := by omega
+          rw [if_neg h2, prevOf_one p c h1]
+          simp only [ne_eq, not_true_eq_false, if_false, List.cons_append, lsrc_next, if_true]
+          rw [ih false (k + 1) rest f (fun h => by cases h)]
+          simp only
+          congr 2
+          obtain ⟨a, neg⟩ := c
+          simp only at h1
+          subst h1
+          cases neg <;> simp [newOf, ProgAC.sgn]
+
 end LJT.ArithBin
